@@ -33,7 +33,7 @@ REQUIREMENTS for each change
 4. The change must violate the property AS WORDED above (do not rely on behaviour the statement does not promise), and should not simply delete the feature.
 
 DELIVERABLES (write them in {wt}/_seeded/ ; create the directory):
-  For k = 1..{n}:  {wt}/_seeded/m<k>.diff   (output of `git diff` for that change alone, relative to the pristine checkout - make each change on the pristine tree: use `git stash`/`git checkout -- gin` between changes)
+  For k = 1..{n}:  {wt}/_seeded/m<k>.diff   (output of `git diff` for that change alone, relative to the pristine checkout - make each change on the pristine tree: save each diff to a file and use `git checkout -- gin` between changes; NEVER use `git stash` - the stash is shared with other worktrees)
                    {wt}/_seeded/m<k>_demo.py (the demonstration; run as  PYTHONPATH={wt} /venv/bin/python m<k>_demo.py)
                    {wt}/_seeded/m<k>.json    ({{"property": "{p['id']}", "summary": "...", "needs_to_manifest": "...", "tests_passed": <int>, "demo_exit_original": 0, "demo_exit_changed": <int>}})
 Leave the worktree's gin/ directory PRISTINE at the end (git checkout -- gin) so only _seeded/ differs.
